@@ -39,6 +39,7 @@ def configs(tier):
         add("sdr-2p-K2-norefresh-w0.0", refresh=False, K=2, nports=2, watch=(0, 0), rows=(0,), wes=[3, 1], **SDR)
         add("sdr-2p-K2-norefresh-w1.1", refresh=False, K=2, nports=2, watch=(1, 1), banks=(0,), wes=[3, 2], **SDR)
         add("ddr2x2-1p-K3-norefresh-w1.2", refresh=False, K=3, watch=(1, 2), wes=[15, 4], **DDR2)      # 1:2 rate
+        add("ddr3x4-sigphases-rd2wr1-1p-K3-norefresh-w1.2", refresh=False, K=3, watch=(1, 2), wes=[255, 4], rdphase=2, wrphase=1, phase_signals=True, **DDR3)   # phases given as Signals
         add("ddr3x4-1p-K3-norefresh-w0.0", refresh=False, K=3, watch=(0, 0), wes=[255, 1], **DDR3)
         add("ddr3x4-1p-K3-norefresh-w3.5", refresh=False, K=3, watch=(3, 5), wes=[255, 32], **DDR3)
         add("ddr3x4-1p-K2-refresh-W10-w1.2", refresh=True, K=2, window=10, watch=(1, 2), wes=[255, 4], **DDR3)
